@@ -19,13 +19,34 @@ def _init_worker():
     sys.path.insert(0, core_path)
 
 
+JOB_TIMEOUT = int(os.environ.get('KERNPY_VERIF_JOB_TIMEOUT', '600'))     # seconds; a job normally takes well under ten
+
+
+class JobTimeout(BaseException):
+    pass
+
+
+def _alarm(signum, frame):
+    raise JobTimeout()
+
+
 def _call(args):
     fn, job = args
+    import signal
+    old = signal.signal(signal.SIGALRM, _alarm)
+    signal.alarm(JOB_TIMEOUT)
     try:
         import kernpy as kp
         return fn(kp, job)
+    except JobTimeout:
+        # a call of the library that does not return is a failing input of whatever property the job explores
+        return {'records': [rec('timeout', viol=[('terminates', f'the library did not return within {JOB_TIMEOUT} s on this job', {'job': repr(job)[:2000]})],
+                                kind='timeout', key=('timeout', repr(job)[:200]))]}
     except Exception:
         return {'crash': traceback.format_exc(), 'job': repr(job)[:300], 'records': []}
+    finally:
+        signal.alarm(0)
+        signal.signal(signal.SIGALRM, old)
 
 
 def pmap(fn, jobs, nproc=None):
